@@ -335,6 +335,52 @@ pub fn search(tier: &str, seed: u64, s: &mut Search) {
             }
         }
     }
+    // ---- the content of referenced definitions (clip path, mask, pattern, marker, symbol): a non-rendered graphics
+    // element put before, between or after the rendered children changes nothing
+    let nd = (if tier == "thorough" { 1200 } else { 160 }) * mult;
+    for i in 0..nd {
+        let slot = ["@0@", "@1@", "@2@"];
+        let host = format!(
+            r##"<svg xmlns="http://www.w3.org/2000/svg" xmlns:xlink="http://www.w3.org/1999/xlink" width="120" height="100"><defs><clipPath id="dc">{0}<rect x="10" y="10" width="60" height="50"/>{1}<circle cx="80" cy="60" r="25"/>{2}</clipPath><mask id="dm">{0}<rect x="5" y="5" width="80" height="60" fill="white"/>{1}<circle cx="90" cy="70" r="20" fill="#888"/>{2}</mask><pattern id="dp" width="20" height="20" patternUnits="userSpaceOnUse">{0}<rect width="10" height="10" fill="teal"/>{1}<circle cx="15" cy="15" r="4" fill="gold"/>{2}</pattern><marker id="dk" markerWidth="8" markerHeight="8" refX="4" refY="4">{0}<circle cx="4" cy="4" r="3" fill="red"/>{1}<rect width="3" height="3"/>{2}</marker><symbol id="ds">{0}<rect width="30" height="20" fill="purple"/>{1}<circle cx="30" cy="20" r="8"/>{2}</symbol></defs>{3}</svg>"##,
+            slot[0], slot[1], slot[2],
+            match i % 5 {
+                0 => r##"<rect width="120" height="100" fill="green" clip-path="url(#dc)"/>"##,
+                1 => r##"<rect width="120" height="100" fill="green" mask="url(#dm)"/>"##,
+                2 => r##"<rect width="120" height="100" fill="url(#dp)" stroke="url(#dp)" stroke-width="8"/>"##,
+                3 => r##"<path d="M 20 20 L 60 70 L 100 30" fill="none" stroke="black" stroke-width="2" marker-start="url(#dk)" marker-mid="url(#dk)" marker-end="url(#dk)"/>"##,
+                _ => r##"<use xlink:href="#ds" x="20" y="20"/><use xlink:href="#ds" x="60" y="50" opacity="0.5"/>"##,
+            }
+        );
+        let base = host.replace(slot[0], "").replace(slot[1], "").replace(slot[2], "");
+        let Some((ta, pa)) = tree_and_pixels(&base, &o) else { continue };
+        // non-rendered *graphics* content: display none, zero size, empty geometry, invalid transform, failing condition
+        let junk = match rng.below(6) {
+            0 => r#"<rect display="none" width="500" height="500" fill="white"/>"#.to_string(),
+            1 => r#"<rect width="0" height="40" fill="white"/>"#.to_string(),
+            2 => r#"<rect x="10" y="10" width="30" height="30" fill="white" transform="matrix(0 0 0 0 0 0)"/>"#.to_string(),
+            3 => r#"<path d="" fill="white"/><circle r="0" fill="white"/>"#.to_string(),
+            4 => r#"<rect requiredExtensions="http://example.org/none" width="500" height="500" fill="white"/>"#.to_string(),
+            _ => r#"<rect style="display:none" width="500" height="500" fill="white"/><polygon points="" fill="white"/>"#.to_string(),
+        };
+        let at = rng.below(3) as usize;
+        let mut filled = host.clone();
+        for (k, sl) in slot.iter().enumerate() {
+            filled = filled.replace(sl, if k == at { &junk } else { "" });
+        }
+        s.case("definition-content", &filled, true);
+        match tree_and_pixels(&filled, &o) {
+            None => s.finding("oracle:junk:in-definition-content:rejected-or-panicked", "non-rendered content inside a referenced definition makes the document unparsable", &filled),
+            Some((tb, pb)) => {
+                if ta != tb {
+                    s.finding("oracle:junk:in-definition-content:tree-changed", "a non-rendered graphics element inside a referenced definition changes the tree", &filled);
+                } else if let (Some(pa), Some(pb)) = (&pa, &pb) {
+                    if pa.data() != pb.data() {
+                        s.finding("oracle:junk:in-definition-content:pixels-changed", "a non-rendered graphics element inside a referenced definition changes the pixels", &filled);
+                    }
+                }
+            }
+        }
+    }
     // ---- style sheets with structural selectors (:first-child, a + b, a > b, descendant): comments, processing
     // instructions and white space are not elements and must not change what the selectors match
     // (element-shaped junk is left out here: an unknown element IS a sibling for CSS)
